@@ -41,9 +41,9 @@ func main() {
 
 type seedRepo struct {
 	*packlab.Repo
-	truth   packlab.ObjMap
-	idx     int
-	deepDir string // copy repacked with long delta chains
+	truth    packlab.ObjMap
+	idx      int
+	deepDir  string // copy repacked with long delta chains
 	multiDir string // copy with several packs + loose objects
 }
 
@@ -221,6 +221,20 @@ func run(c *vf.Ctx) {
 		}
 	}
 
+	// ---- synthetic pairs whose delta holds a literal run of exactly k*127 bytes (boundary of the insert opcode)
+	for fi, format := range []string{"sha1", "sha256"} {
+		for q := 0; q < c.N(2, 6); q++ {
+			r := c.Rand("insert127", format, q)
+			objs, exact, control := insert127Objects(r, format)
+			srp := &seedRepo{Repo: &packlab.Repo{Format: format}, truth: objs, idx: 100 + fi*10 + q}
+			ec := &encCase{repo: srp, storage: "memory", setKind: "insert127", ids: objs.IDs(), window: []uint{10, 50}[q%2], ref: (q+fi)%2 == 0}
+			r.Shuffle(len(ec.ids), func(a, b int) { ec.ids[a], ec.ids[b] = ec.ids[b], ec.ids[a] })
+			cases = append(cases, ec)
+			c.Count("insert127_pairs_generated_exact", exact)
+			c.Count("insert127_pairs_generated_controls", control)
+		}
+	}
+
 	var mu sync.Mutex
 	maxDepth := 0
 	vf.Parallel(len(cases), 6, func(i int) {
@@ -244,6 +258,9 @@ func run(c *vf.Ctx) {
 	c.Floor("sha256 packs", c.Counter("sha256_packs"), c.N(10, 100))
 	c.Floor("packs with object > 1MiB", c.Counter("huge_packs"), c.N(2, 20))
 	c.Floor("max delta chain depth in encoded packs", maxDepth, 5)
+	c.Floor("encoded deltas with a literal insert run of exactly k*127 bytes", c.Counter("pairs_with_insert_run_multiple_of_127"), c.N(12, 36))
+	c.Floor("distinct k*127 run lengths", c.SeenCount("insert_run_multiples_of_127"), 4)
+	c.Floor("encoded deltas with a literal insert run of k*127+-1 bytes (controls)", c.Counter("pairs_with_insert_run_next_to_multiple_of_127"), c.N(8, 24))
 	c.Assume("git 2.39.5 index-pack --strict / verify-pack are the reference acceptors; --strict (fsck + connectivity) is applied only to requests closed under reachability, plain index-pack to the others")
 	c.Assume("object sets come from git fast-import of generated histories (all objects are well-formed), so --strict content complaints cannot be caused by the inputs")
 }
@@ -383,6 +400,24 @@ func evalCase(c *vf.Ctx, g *gitx.Git, ec *encCase, i int) (depthSeen int) {
 		byRef := map[string]int{}
 		// resolve ids of entries to follow ref-deltas: need git's idx; approximate depth through offsets only for ofs
 		for _, e := range es {
+			if e.Type >= 6 {
+				runs, zero := packlab.DeltaInsertRuns(e.Data)
+				if zero {
+					c.Count("deltas_with_opcode_zero", 1)
+				}
+				for _, n := range runs {
+					switch {
+					case n%127 == 0:
+						c.Count("pairs_with_insert_run_multiple_of_127", 1)
+						c.Seen("insert_run_multiples_of_127", strconv.Itoa(n))
+					case n%127 == 126 || n%127 == 1:
+						c.Count("pairs_with_insert_run_next_to_multiple_of_127", 1)
+					}
+					if n > 127 {
+						c.Count("insert_runs_longer_than_127", 1)
+					}
+				}
+			}
 			switch e.Type {
 			case 6:
 				nDeltas++
